@@ -2,7 +2,7 @@
 Theorems: coq/Properties/C17.v over Model/Links.v.  Tie: histories {create, re-sync, retarget, prior entry kinds}
 per link kind x link mode through the real binary; readlink / kind of the destination entry after every run vs
 Links.sync_link; source and sentinel snapshots; user xattrs with and without -X."""
-import json, os
+import json, os, shutil
 import vlib, world
 from common import proof_phase, TRUSTED_COMMON
 
@@ -45,6 +45,104 @@ def dclass(path, tids, cids):
     if os.path.isdir(path):
         return "d"
     return "f%d" % cids.setdefault(world.sha(path), len(cids) + 1)
+
+
+def xattr_histories(sc, r, n):
+    """one regular file, histories of attribute changes on either side, content changes and runs with / without -X, through the
+    real binary; after every run the destination's content and user attributes are compared with Model/Xattr.v and judged
+    against the statement.  -> (cases, observed, violations, stats)"""
+    cases, observed, viol = [], [], []
+    stats = {"runs_with_X": 0, "runs_without_X": 0, "skipped_runs": 0, "transfers_in_place": 0, "transfers_via_working_file": 0}
+    env_old = dict(sc.env)
+    sc.env["SY_VERIF_DELTA_THRESHOLD"] = "64"
+    def uattrs(p):
+        return {k: os.getxattr(p, k) for k in os.listxattr(p) if k.startswith("user.")}
+    try:
+        for i in range(n):
+            base = os.path.join(sc.dir, "xa%d" % i)
+            src, dst = base + "/src", base + "/dst"
+            os.makedirs(src); os.makedirs(dst)
+            big = (i % 3 == 2)                 # at least the (lowered) delta threshold: updates go through a working file + rename
+            off = 200 if big else 10
+            sf, df = src + "/f.dat", dst + "/f.dat"
+            nextc = [1]
+            def write():
+                c = nextc[0]; nextc[0] += 1
+                with open(sf, "wb") as fh:
+                    fh.write(bytes([c]) * (off + c))
+                return c
+            c0 = write()
+            ops = []
+            for _ in range(r.randrange(3, 11)):
+                ops.append(r.choice(["ss", "ss", "ss", "sd", "sd", "sw", "sw", "ds", "dd", "y", "y", "y"]))
+            ops.append("y")
+            toks = []
+            outs = []
+            for o in ops:
+                k, v = r.randrange(1, 5), r.randrange(1, 10)
+                if o == "ss":
+                    os.setxattr(sf, "user.k%d" % k, str(v).encode()); toks.append("ss:%d:%d" % (k, v))
+                elif o == "sd":
+                    try:
+                        os.removexattr(sf, "user.k%d" % k)
+                    except OSError:
+                        pass
+                    toks.append("sd:%d" % k)
+                elif o == "sw":
+                    keep = uattrs(sf)
+                    c = write()
+                    for kk, vv in keep.items():
+                        os.setxattr(sf, kk, vv)
+                    toks.append("sw:%d" % c)
+                elif o == "ds":
+                    if os.path.isfile(df):
+                        os.setxattr(df, "user.k%d" % k, str(v).encode())
+                    toks.append("ds:%d:%d" % (k, v))
+                elif o == "dd":
+                    if os.path.isfile(df):
+                        try:
+                            os.removexattr(df, "user.k%d" % k)
+                        except OSError:
+                            pass
+                    toks.append("dd:%d" % k)
+                else:
+                    x = r.random() < 0.6
+                    before = uattrs(df) if os.path.isfile(df) else None
+                    bsha = world.sha(df) if os.path.isfile(df) else None
+                    rr = world.run_sy([src, dst, "-j1", "-q"] + (["-X"] if x else []), sc)
+                    toks.append("y:%d:%d" % (1 if x else 0, 1 if big else 0))
+                    stats["runs_with_X" if x else "runs_without_X"] += 1
+                    if not os.path.isfile(df):
+                        outs.append("absent")
+                        viol.append({"world": "xattr-%d" % i, "history": ",".join(toks), "why": "the run did not create the destination file (rc=%s)" % rr["rc"], "prop": "C17"})
+                        continue
+                    after = uattrs(df)
+                    transferred = (bsha != world.sha(df))
+                    if transferred and before is not None:
+                        stats["transfers_via_working_file" if big else "transfers_in_place"] += 1
+                    if not transferred:
+                        stats["skipped_runs"] += 1
+                    sz = os.path.getsize(df)
+                    outs.append("c=%d a=%s" % (sz - off, ";".join("%s:%s" % (kk[6:], vv.decode()) for kk, vv in sorted(after.items()))))
+                    want = uattrs(sf)
+                    if world.sha(df) != world.sha(sf):
+                        viol.append({"world": "xattr-%d" % i, "history": ",".join(toks), "why": "destination content differs from the source after the run", "prop": "C17"})
+                    if x and after != want:
+                        viol.append({"world": "xattr-%d" % i, "history": ",".join(toks), "prop": "C17",
+                                     "why": "-X given but the destination's user attributes %r differ from the source's %r (file %s)" % (
+                                         sorted(after.items()), sorted(want.items()), "transferred" if transferred else "skipped as up to date")})
+                    if not x:
+                        new = {kk: vv for kk, vv in after.items() if before is None or transferred or before.get(kk) != vv}
+                        if new:
+                            viol.append({"world": "xattr-%d" % i, "history": ",".join(toks), "prop": "C17",
+                                         "why": "-X not given but user attributes %r appeared on the destination" % sorted(new.items())})
+            cases.append("XA %d %s" % (c0, ",".join(toks)))
+            observed.append(" | ".join(outs))
+            shutil.rmtree(base, ignore_errors=True)
+    finally:
+        sc.env.clear(); sc.env.update(env_old)
+    return cases, observed, viol, stats
+
 
 
 def run(tier, seed, pid=PID):
@@ -145,6 +243,14 @@ def run(tier, seed, pid=PID):
             nontriv.add((mode, kind, prior, nruns))
             if len(samples) < 3:
                 samples.append({"mode": mode, "kind": kind, "prior": prior, "case": cases[-1], "observed": observed[-1]})
+        xa_cases, xa_obs, xa_stats = [], [], {}
+        if pid == "C17":
+            xa_cases, xa_obs, xa_viol, xa_stats = xattr_histories(sc, vlib.rng_for(seed, "C17-xattr"), 40 if tier == "quick" else 500)
+            viol += xa_viol
+    for c, o, m in zip(xa_cases, xa_obs, vlib.run_model(xa_cases) if xa_cases else []):
+        if o != m:
+            diffs.append({"case": c, "impl": o, "model": m})
+    res.cov["xattr_histories"] = dict(xa_stats, histories=len(xa_cases))
     model = vlib.run_model(cases)
     for c, o, m in zip(cases, observed, model):
         if pid == "C02":
@@ -159,7 +265,7 @@ def run(tier, seed, pid=PID):
         viol = [v for v in viol if v.get("prop") == "C02"]
     else:
         viol = [v for v in viol if v.get("prop") != "C02"]
-    res.cov["evaluations"] = len(cases)
+    res.cov["evaluations"] = len(cases) + len(xa_cases)
     res.cov["distinct_nontrivial"] = len(nontriv)
     res.cov["model_impl_disagreements"] = len(diffs)
     res.cov["known_finding_hits"] = {k: len(v) for k, v in hits.items()}
@@ -168,7 +274,7 @@ def run(tier, seed, pid=PID):
                        "distinct = distinct (mode, kind, prior, runs)" % (KINDS,))
     res.cov["samples"] = samples
     res.cov["trusted_base"] = TRUSTED_COMMON + ["kernel symlink semantics (symlink(2) EEXIST, fs::copy follows a destination link, remove_file removes the link itself)",
-                                                 "xattrs are validated by runs only (copy_file strips, write_xattrs re-applies under -X): no Gallina model"]
+                                                 "xattr(7) system calls as a finite map per inode (rename replaces the inode, fs::copy onto an existing file keeps it); only the user.* namespace is observed"]
     for cls, f in known.items():
         h = hits.get(f["id"], [])
         if h:
